@@ -170,7 +170,7 @@ theorem gunzLimited_unclean (d : Bytes) (h : d.length < 10485760) : gunzLimited 
 
 /-! ### Panic-explicit versions -/
 
-theorem goMake_nonneg (n : Int) (h : ¬ n < 0) : goMake n = .ok (zeros n.toNat) := by
+theorem goMake_nonneg (n : Int) (h : ¬ n < 0) : goMake n = .ok n.toNat := by
   simp [goMake, h]
 
 theorem decodeMessageP_eq (b : Bytes) : decodeMessageP b = Out.ofExcept (decodeMessage b) := by
